@@ -12,7 +12,7 @@ REPO = os.environ.get("VERIF_REPO", "/repo")
 def load_program(files):
     prog = rseval.Program()
     for f in files:
-        prog.add_items(rsparse.parse_file(os.path.join(REPO, f)))
+        prog.add_items(rsparse.parse_file(os.path.join(REPO, f)), f)
     return prog
 
 
